@@ -90,6 +90,12 @@ func (root *Root) AddTypes(types ...Type) (err error) {
 		root.types = origTypes
 		root.dirs = origDirs
 		root.schema = origSchema
+	} else {
+		// Without a schema definition the root operation types are the types
+		// with the default names, also when they are added here and not by
+		// parsing a document. A root filled by AddTypes() only has to have a
+		// schema to resolve requests with.
+		root.assureSchema()
 	}
 	return
 }
